@@ -168,18 +168,27 @@ def base_value(t, defs, depth=2, salt=0, csize=2):
         n = csize
         if k == "set":
             return {"nil": False, "items": [elem_n(t["e"], j, defs, depth - 1, salt) for j in range(n)]}
-        return {"nil": False, "items": [base_value(t["e"], defs, depth - 1, salt + j, csize) for j in range(n)]}
+        return {"nil": False, "items": [sparse_or_full(t["e"], defs, depth - 1, salt + j, csize, j) for j in range(n)]}
     if k == "map":
         if depth <= 0 and not (scalarish(t["kt"]) and scalarish(t["vt"])):
             return {"nil": False, "ents": []}
         n = min(csize, key_capacity(t["kt"]))
-        return {"nil": False, "ents": [[key_n(t["kt"], j, defs), base_value(t["vt"], defs, depth - 1, salt + j, csize)]
+        return {"nil": False, "ents": [[key_n(t["kt"], j, defs), sparse_or_full(t["vt"], defs, depth - 1, salt + j, csize, j)]
                                        for j in range(n)]}
     if k == "struct":
         d = defs[t["s"]]
         return {"f": {f["key"]: base_value(f["t"], defs, depth - 1, salt + i, csize) for i, f in enumerate(d["fields"])},
                 "unk": []}
     raise ValueError(k)
+
+
+def sparse_or_full(t, defs, depth, salt, csize, j):
+    """struct elements alternate between a fully populated and an all-zero (sparse) value, so
+    that consecutive elements differ in which fields they carry"""
+    if t["k"] == "struct" and j % 2 == 1:
+        z = zero_struct(t["s"], defs)
+        return {"p": 1, "v": z} if t.get("ptr") else z
+    return base_value(t, defs, depth, salt, csize)
 
 
 def elem_n(t, j, defs, depth, salt):
@@ -198,7 +207,7 @@ def sized_container(t, n, defs, salt=0):
     if k in ("list", "set"):
         return {"nil": False, "items": [elem_n(t["e"], j, defs, 1, salt) for j in range(n)]}
     n = min(n, key_capacity(t["kt"]))
-    return {"nil": False, "ents": [[key_n(t["kt"], j, defs), base_value(t["vt"], defs, 1, salt + j, 1)] for j in range(n)]}
+    return {"nil": False, "ents": [[key_n(t["kt"], j, defs), sparse_or_full(t["vt"], defs, 1, salt + j, 1, j)] for j in range(n)]}
 
 
 def interesting(t, defs, req, sizes=CONTAINER_SIZES, strlens=STRLENS):
